@@ -23,7 +23,7 @@ TAG_PROPERTY = {
     "prev.payload": "C14", "ev.guard.payload": "C14", "ev.life.payload": "C14",
     "mon.report": "C16", "strA": "C16", "hist": "C16",
     "draws": "C12",
-    "asserts": "C11",
+    "asserts": "C11", "allocs": "C11",
     "buf": "C08", "mon.load.act": "C08", "mon.load.res": "C08", "mon.load.exit": "C08", "mon.load.enter": "C08",
     "ret": "C09", "mon.replay.act": "C09", "mon.replay.res": "C09",
 }
@@ -32,9 +32,9 @@ UNATTRIBUTED = {"ev.life", "ev.report", "ev.all"}
 
 TIERS = {
     "quick": dict(fixtures=["min", "comp", "ortho", "strat", "auto", "peers"], records=900, chunks=3,
-                  variants=["plain"], mc=["min", "comp"], systematic={"auto": 2, "ortho": 1}),
+                  variants=["plain", "asan", "assert"], mc=["min", "comp"], systematic={"auto": 2, "ortho": 1}),
     "thorough": dict(fixtures=["min", "comp", "ortho", "strat", "auto", "peers", "oroot", "wide", "plan", "selpeers"],
-                     records=12000, chunks=12, variants=["plain", "asan", "dev"], mc=["min", "comp", "ortho", "oroot"],
+                     records=12000, chunks=12, variants=["plain", "asan", "assert", "dev", "plain11"], mc=["min", "comp", "ortho", "oroot"],
                      systematic={"min": 12, "comp": 10, "ortho": 8, "strat": 6, "auto": 10, "peers": 6, "oroot": 8, "plan": 6}),
 }
 
@@ -96,7 +96,8 @@ def campaign(tier, seed=SEED, log=print):
             for i in range(nchunks):
                 f = os.path.join(cdir, "%s-%s-%d.ndjson" % (fxname, variant, i))
                 s = (seed * 7919 + i * 104729 + sum(map(ord, fxname + variant))) & 0x7fffffff
-                n, crash = explore.random_walks(fx, exe, f, s, nrec // nchunks)
+                n, crash = explore.random_walks(fx, exe, f, s, nrec // nchunks,
+                                                profile=(dict(serial=False) if variant == "assert" and gen.cfg_of(fx)["manual"] else None))
                 if crash:
                     crashes.append(dict(file=f, rc=crash[0], stderr=crash[1][-1500:], records=n))
                 files.append(f)
@@ -208,7 +209,7 @@ STAGES = [
 
 
 def is_monitor(tag):
-    return tag.startswith("mon.") or tag in ("badThis", "badOrigin", "asserts", "on")
+    return tag.startswith("mon.") or tag in ("badThis", "badOrigin", "asserts", "allocs", "on")
 
 
 def primary(run, ds):
